@@ -6,6 +6,7 @@
 //     3 psEccParsePrivKey(curve NULL)                  7 psEccParsePrivKey(curve = P-256 / P-384 by bit 5)
 // Key structures are zero-initialised like the in-tree callers (sslKeys_t is calloc'ed; psPubKey_t locals
 // are memset).  Success => walker over the key, then the documented clear function; then leak check.
+#define C09_WORK_BOUND 3000000   /* SHA-1 finalisations per input; see c09_common.h (legit worst case with a sane iteration limit is 3x..6x below) */
 #define C09_HDR 1
 #define C09_PARTS 1
 #include "c09_common.h"
@@ -14,6 +15,7 @@ using namespace vf;
 using namespace c09;
 
 static void prop(Tape &t, Ctx &c) {
+    C09_WORK_RESET();
     uint8_t sel = t.u8();
     unsigned api = sel & 7;
     const char *pass = kPasswords[(sel >> 3) & 3];
@@ -83,5 +85,5 @@ static void prop(Tape &t, Ctx &c) {
     if (rc >= 0 || deep) c.nontrivial(fmt("priv:%u:%d:%llx", api, rc >= 0, (unsigned long long) shape));
     if (rc >= 0) c.sample(fmt("%s len=%zu pass=%s rc=%d type=%d", names[api], in.n, pass, rc, type));
 }
-VF_TARGET("C09.privkey_any", prop, 2048, 45)
+VF_TARGET("C09.privkey_any", prop, 2048, 65)
 namespace vf { void vf_global_init(int, char **) { psCryptoOpen(PSCRYPTO_CONFIG); } }
